@@ -322,6 +322,11 @@ func (ex *Explorer) intrinsic(caller *frame, name string, args []value) (value, 
 		return symIte(ex, c, args[0], args[1]), true
 	case "vUnsupported":
 		unsupported("harness: %s", args[0].(string))
+	case "vNoSample":
+		// the native behaviour on this path depends on Go's random map order:
+		// do not use it for translator validation
+		ex.noSample = true
+		return nil, true
 	case "vIsSymbolic":
 		return true, true
 	}
